@@ -341,12 +341,13 @@ def run(pid, tier="quick", seed=1, replay=None):
     # ---- S5 verdict
     known = load_known()
     new_viol = []
-    seen_known = set()
+    seen_known = set(); known_cases = {}
     for v in violations:
         ks = [k for k in known if sig_matches(k, pid, v["sig"])]
         if ks:
             if ks[0]["id"] not in seen_known:
                 seen_known.add(ks[0]["id"])
+                known_cases[ks[0]["id"]] = {"case": v["case"][:20000], "signature": v["sig"], "observed": v["impl"][:300]}
                 known_lines.append(f"KNOWN-FINDING: property={pid} {ks[0]['what']}")
         else:
             new_viol.append(v)
@@ -407,7 +408,7 @@ def run(pid, tier="quick", seed=1, replay=None):
            "samples": samples or [{"note": "no sample collected"}],
            "traces_validated_against_impl": stats["within_tol"], "bit_identical": stats["bit_identical"], "mismatches": stats["mismatch"],
            "input_distribution": stats["tags"], "impl_outcomes": stats["outcomes"],
-           "known_findings_reproduced": sorted(seen_known), "broken": [{k: (str(v)[:500]) for k, v in b.items()} for b in broken[:4]]}
+           "known_findings_reproduced": sorted(seen_known), "known_findings_cases": known_cases, "broken": [{k: (str(v)[:500]) for k, v in b.items()} for b in broken[:4]]}
     if alt: cov["alternative_builds"] = alt
     cov.update(extra)
     ev = {"property_id": pid, "tier": tier, "seed": seed, "level": getattr(mod, "LEVEL", "proof"), "coverage": cov,
